@@ -251,6 +251,8 @@ class XPowGate(eigen_gate.EigenGate):
 
     def _qasm_(self, args: cirq.QasmArgs, qubits: tuple[cirq.Qid, ...]) -> str | None:
         args.validate_version('2.0', '3.0')
+        if self._dimension != 2:
+            return None  # OpenQASM registers hold qubits only.
         if self._global_shift == 0:
             if self._exponent == 1:
                 return args.format('x {0};\n', qubits[0])
@@ -800,6 +802,8 @@ class ZPowGate(eigen_gate.EigenGate):
 
     def _qasm_(self, args: cirq.QasmArgs, qubits: tuple[cirq.Qid, ...]) -> str | None:
         args.validate_version('2.0', '3.0')
+        if self._dimension != 2:
+            return None  # OpenQASM registers hold qubits only.
 
         if self.global_shift == 0:
             if self._exponent == 1:
